@@ -48,11 +48,10 @@ theorem routeLen_eq_tourLen (D : Nat → Nat → Int) (h00 : D 0 0 = 0) (r : Lis
 theorem step_maxLen (i : Inst) (s : State) (a : Nat) :
     (step i s a).maxLen =
       max s.maxLen (s.curLen + i.D s.cur a + (if (step i s a).done then i.D a 0 else 0)) := by
-  have hd : (step i s a).done =
-      !(anyCust i.n (upd (upd s.avail a false) 0 (decide (a ≠ 0) && agentLeft i s))) := rfl
-  rw [hd]
   simp only [step, stepWith]
-  split <;> split <;> omega
+  by_cases hdn : doneTest i.n (upd (upd s.avail a false) 0 (depotNe a && agentLeft i s)) = true
+  · simp only [hdn, if_true]; split <;> omega
+  · simp only [hdn, if_false, Int.add_zero]; split <;> omega
 
 /-- the closing leg is not stored -/
 theorem step_curLen (i : Inst) (s : State) (a : Nat) :
